@@ -149,6 +149,8 @@ def c01(run):
                 "cost/lot rate/total incl. zero, same-commodity and bare rates); non-trivial = behaviour has an omitted/assigned "
                 "posting, a cost/lot, a declared precision, a rejection or an implied exchange (classes computed by the harness)")
     run.assumptions += LEDGER_ASSUME
+    # the algebra behind replaying Plain with every amount x 10^15 (spec/Homogeneity.tla, an ASSUME evaluated by TLC)
+    run.add_model(tlc_check("../Homogeneity.tla", "Homogeneity.cfg", workers=2, timeout=600, coverage=False))
     sc = ["Plain", "Round", "CostLot"]
     if run.tier == "thorough":
         sc += ["Plain4", "OmitAssign"]
